@@ -18,8 +18,8 @@ Definition run_prog (s : state) (o : op) : option env :=
   | CliFull => exec (src_plain tr (base s)) W 0 refresh_full_prog e
   | Incr => exec (src_gt tr (base s)) W 0 (refresh_incr_prog (exists_ s) (has_wm s) false) e
   | Merge L => exec (src_ge tr (base s)) W L (refresh_merge_prog (exists_ s) (has_wm s) (negb (L =? 0))) e
-  | CliIncr => exec (src_plain tr (base s)) W 0 (refresh_incr_prog (exists_ s) (has_wm s) false) e
-  | CliMerge => exec (src_plain tr (base s)) W 0 (refresh_merge_prog (exists_ s) (has_wm s) false) e
+  | CliIncr => exec (src_gt tr (base s)) W 0 (refresh_incr_prog (exists_ s) (has_wm s) false) e
+  | CliMerge => exec (src_ge tr (base s)) W 0 (refresh_merge_prog (exists_ s) (has_wm s) false) e
   end.
 
 Lemma filter_ext' {A} (p q : A -> bool) l : (forall x, p x = q x) -> filter p l = filter q l.
@@ -44,7 +44,8 @@ Proof.
   - (* CliFull *) destruct ro as [r|]; reflexivity.
   - (* CliIncr *) destruct ro as [[|x r]|]; reflexivity.
   - (* CliMerge *)
-    destruct ro as [[|x r]|]; cbn -[watermark materialize filter]; rewrite ?keep_below; reflexivity.
+    rewrite Z.sub_0_r.
+    destruct ro as [[|x r]|]; cbn -[watermark materialize filter]; unfold merge; rewrite ?keep_below; reflexivity.
 Qed.
 
 (* whole histories through the extracted programs: the rollup table after the history is the model's *)
